@@ -7,12 +7,16 @@ import MLPE.Proofs.Retry
 /-!
 # Plain pipelines: the invariant behind C01 / C02 / C03 / C05 / C06
 
-A *plain* program has only `Input` dependencies (no switch, one-of or recurrent machinery), bodies that
-never ask for another iteration, and collaborators (event managers, artifact store) that do not suspend.
-Retry / default settings, execution modes, failures anywhere, `None` / falsy results are arbitrary.
+A *plain* program has only `Input` dependencies (no switch, one-of or recurrent machinery) and bodies that never ask
+for another iteration.  Retry / default settings, execution modes, failures anywhere, `None` / falsy results are
+arbitrary; the collaborators (event managers, artifact store) may suspend any number of times inside any callback and
+may raise.
 
-The invariant `PInv` describes every reachable state of such a program while the caller has not left
-`chart.run` (`outcome = none`), under every interleaving, completion order and cancellation point.
+The invariant `PInv` describes every state of such a run until `manager.run` leaves, under every interleaving,
+completion order and cancellation point; `Fin` describes the finishing phase (outcome decided, every other task
+cancel-marked, the caller possibly suspended in `on_pipeline_complete`).  `pinv_step` / `fin_step` are the inductive
+steps, `pinv_live` / `outcome_live` the statements over executions.  Value tracking (`Att`, `Track`, `agree_of_nodes`) is
+conditional on `val` being a `Solution` of the dataflow equations.
 -/
 namespace MLPE.Eng
 open MLPE
